@@ -319,6 +319,8 @@ class FnEdit:
         self.opts = {}
         self.closures = {}
         self.shape = False
+        self.afterloops = {}
+        self.attrs = []
 
 
 class Generator:
@@ -470,6 +472,8 @@ class Generator:
                 e.start = (text, l0)
             elif kind in ('before', 'after'):
                 e.anchors.append((kind, int(args[0]), ' '.join(args[1:]), text, l0))
+            elif kind == 'afterloop':
+                e.afterloops[int(args[0])] = (text, l0)
             elif kind == 'closure':
                 e.closures[int(args[0])] = (args[1].strip().strip('|'), text, l0)
             cur = None
@@ -493,6 +497,8 @@ class Generator:
                         e.external = True
                 elif c == 'shape':
                     e.shape = True
+                elif c == 'attr':
+                    e.attrs.append(d[len('attr'):].strip())
                 elif c == 'closure':
                     # //@ closure K |typed params|   followed by spec lines
                     cur = ('closure', [tok[1], d.split(None, 2)[2]], [], lno + 1)
@@ -503,7 +509,7 @@ class Generator:
                     # conditional inside fn block: only whole sub-directives
                     cur = ('cond', tok[1:], [], lno)
                     raise Inconclusive('%s:%d: //@ if inside fn block unsupported' % (rel, lno))
-                elif c in ('spec', 'loop', 'start', 'before', 'after'):
+                elif c in ('spec', 'loop', 'start', 'before', 'after', 'afterloop'):
                     cur = (c, tok[1:], [], lno + 1)
                 elif c in ('specS', 'specP'):
                     # mode-specific spec
@@ -538,6 +544,9 @@ class Generator:
         text = it.text
         text = self._apply_rules(text, frel, it.first_line)
         kv = self._kv(opts)
+        if 'noderive' in kv:
+            text, k = re.subn(r'(?m)^[ \t]*#\[derive\([^\]]*\)\][ \t]*$', '', text)
+            self._count('R5-derive', k)
         pre = ''
         if 'reject_recursive' in kv:
             pre = '#[verifier::reject_recursive_types(%s)]\n' % kv['reject_recursive']
@@ -650,7 +659,11 @@ class Generator:
     def _emit_fn(self, text, frel, line0, path, kv, edit, trel, tline):
         text = self._apply_rules(text, frel, line0)
         for rg, rp in edit.subs:
-            text, k = re.subn(rg, rp, text)
+            def _padded(mm, rp=rp):
+                newt = mm.expand(rp)
+                d = mm.group(0).count('\n') - newt.count('\n')
+                return newt + ('\n' * d if d > 0 else '')
+            text, k = re.subn(rg, _padded, text)
             if k == 0:
                 raise Inconclusive('%s: local rewrite %r did not match' % (path, rg))
             self._count('local-sub', k)
@@ -763,6 +776,10 @@ class Generator:
                 raise Inconclusive('%s: loop %d not found (%d loops)' % (path, k, len(loops)))
             ins.append((loops[k - 1][1], ltext, lline))
             self.clauses += len(re.findall(r'(?m)^\s*(invariant|decreases|ensures)\b|,\s*$', ltext))
+        for k, (ltext, lline) in edit.afterloops.items():
+            if k < 1 or k > len(loops):
+                raise Inconclusive('%s: loop %d not found (%d loops)' % (path, k, len(loops)))
+            ins.append((rsscan.stmt_end(mbody, loops[k - 1][0], len(mbody)), ltext, lline))
         for where, nth, rg, atext, aline in edit.anchors:
             hits = []
             try:
@@ -792,6 +809,8 @@ class Generator:
         label = name
         info = {'name': path, 'file': frel, 'line': line0, 'external': edit.external, 'emitted_as': name}
         self.functions.append(info)
+        for at in edit.attrs:
+            self.emit(at, 'tmpl', trel, tline, label)
         if edit.external:
             self.emit('#[verifier::external_body]', 'tmpl', trel, tline, label)
             self._count('R9')
